@@ -58,6 +58,7 @@ wsum = z3.Function('wsum', Core, z3.ArraySort(I, R), Mat)   # np.einsum('rmq,m->
 chain = z3.Function('chain', TT, IDX, I, Mat)        # sl(Y[0],i0) @ ... @ sl(Y[k],ik)
 mulI = z3.Function('mulI', I, I, I)                  # product of two symbolic dimensions
 pow2 = z3.Function('pow2', I, I)                     # 2 ** q for integer q >= 0
+schain = z3.Function('schain', TT, TT, I, Mat)       # msum(kc(Y1[0],Y2[0])) @ ... @ msum(kc(Y1[k],Y2[k]))  (scalar-product chain)
 pow2r = z3.Function('pow2r', R, R)                   # 2.0 ** x for real x
 sqrt = z3.Function('sqrt', R, R)
 absr = z3.Function('absr', R, R)
@@ -301,6 +302,21 @@ GROUPS['real'] = [
     A([x_], z3.Implies(x_ >= 0, z3.And(sqrt(x_) >= 0, sqrt(x_) * sqrt(x_) == x_)), [sqrt(x_)]),
     A([x_], z3.And(absr(x_) >= 0, z3.Or(absr(x_) == x_, absr(x_) == -x_), absr(x_) >= x_, absr(x_) >= -x_), [absr(x_)]),
     A([x_], z3.And(z3.ToReal(floor(x_)) <= x_, x_ < z3.ToReal(floor(x_)) + 1), [floor(x_)]),
+]
+
+
+# ---- scalar-product chain of two tensors (mul_scalar): recursive definition with a two-variable pattern (no matching loop)
+Y2_ = z3.Const('Y2_', TT)
+GROUPS['schain'] = [
+    A([Y_, Y2_], schain(Y_, Y2_, 0) == msum(kc(Y_[0], Y2_[0])), [schain(Y_, Y2_, 0)]),
+    A([Y_, Y2_, k_, j_], z3.Implies(z3.And(k_ >= 1, j_ == k_ - 1),
+                                    schain(Y_, Y2_, k_) == mm(schain(Y_, Y2_, j_), msum(kc(Y_[k_], Y2_[k_])))),
+      [z3.MultiPattern(schain(Y_, Y2_, k_), schain(Y_, Y2_, j_))]),
+]
+# ---- 2^(x+y) = 2^x 2^y, instantiated only for exponents that already occur (three-variable pattern)
+GROUPS['pow2add'] = [
+    A([x_, y_, z_], z3.Implies(z_ == x_ + y_, pow2r(z_) == pow2r(x_) * pow2r(y_)),
+      [z3.MultiPattern(pow2r(x_), pow2r(y_), pow2r(z_))]),
 ]
 
 
